@@ -592,12 +592,17 @@ func runV1Chain(b *harness.B) {
 		steps := 1 + r.IntN(6)
 		dead := false
 		for i := 0; i < steps && !dead; i++ {
-			if r.IntN(4) == 0 {
+			if r.IntN(4) == 0 && rev.FileContract.RevisionNumber != types.MaxRevisionNumber {
 				// harness "write": data only, values untouched
 				rev.FileContract.Filesize += rhp2.SectorSize * (1 + r.Uint64N(64))
 				rev.FileContract.FileMerkleRoot = randHash(r)
 				rev.FileContract.RevisionNumber++
 				ops = append(ops, "write")
+				if r.IntN(6) == 0 && rev.FileContract.RevisionNumber < types.MaxRevisionNumber-3 {
+					// the revision number jumps to the end of its range (the last one is what a finalised contract carries)
+					rev.FileContract.RevisionNumber = types.MaxRevisionNumber - uint64(r.IntN(3))
+					ops = append(ops, fmt.Sprintf("write-to-max-%d", types.MaxRevisionNumber-rev.FileContract.RevisionNumber))
+				}
 				continue
 			}
 			b.Eval(1)
@@ -637,6 +642,18 @@ func runV1Chain(b *harness.B) {
 			b.Distinct("v1pay", cls, paid, len(ops))
 			sufficient := vr.Cmp(amount) >= 0 && mr.Cmp(amount) >= 0
 			key := "C17/v1/rhp3.PayByContract"
+			if before.FileContract.RevisionNumber == types.MaxRevisionNumber {
+				// "no further revisions are possible": whatever the funds, the constructor has to refuse
+				b.Count("v1_paybycontract_on_the_last_revision_number", 1)
+				if paid {
+					b.Violate(key+"/last-revision-number/revision-number-wraps-around", fmt.Sprintf("the contract is at revision number 2^64-1; PayByContract returned ok with revision number %d (request %d), which consensus rejects", rev.FileContract.RevisionNumber, req.RevisionNumber), wit())
+					dead = true
+				} else if !reflect.DeepEqual(rev, before) {
+					b.Violate(key+"/modifies-revision-on-failure", "PayByContract returned false and changed the revision", wit())
+					dead = true
+				}
+				continue
+			}
 			if !sufficient {
 				b.Count("v1_paybycontract_insufficient", 1)
 				if paid {
